@@ -215,7 +215,7 @@ int64_t ExpressionDispatcher::dispatch_expression(const ASTNode *node) {
 
         if (node->op == "-") {
             int64_t operand = dispatch_expression(node->left.get());
-            return -operand;
+            return static_cast<int64_t>(0 - static_cast<uint64_t>(operand));
         }
 
         if (node->op == "~") {
